@@ -918,7 +918,16 @@ func (g *Gen) nextInstr(x *ssa.Next, st *State, r string) {
 	rng := x.Iter.(*ssa.Range)
 	ok := g.freshConst("nextok", "Bool")
 	tt := x.Type().(*types.Tuple)
-	k := g.freshTupleElem(x, st, tt.At(1).Type(), "nextk")
+	kty := tt.At(1).Type()
+	if b, isB := kty.Underlying().(*types.Basic); isB && b.Kind() == types.Invalid {
+		// `for _, v := range m`: the key is not used by the program, the model still needs it
+		if m, isMap := rng.X.Type().Underlying().(*types.Map); isMap {
+			kty = m.Key()
+		} else {
+			kty = types.Typ[types.Int]
+		}
+	}
+	k := g.freshTupleElem(x, st, kty, "nextk")
 	var v Val
 	if m, isMap := rng.X.Type().Underlying().(*types.Map); isMap {
 		mv := g.val(rng.X).T
@@ -937,6 +946,11 @@ func (g *Gen) nextInstr(x *ssa.Next, st *State, r string) {
 			for _, li := range g.inLoop[x.Block()] {
 				if li.head == x.Block() {
 					noIns = !li.allHav && !li.mapIns[dk]
+					for _, mt := range li.mapInsTypes {
+						if types.Identical(mt, m) {
+							noIns = false
+						}
+					}
 				}
 			}
 			if noIns {
